@@ -86,6 +86,8 @@ type CallRec struct {
 	Cancelled bool
 	CancelAt  time.Duration
 	Appended  bool // a relay host appended key/values to arg2
+	AfterClose bool  // begun after Close returned on the calling node (must fail locally)
+	TOutEv    int64 // event number when BeginCall returned
 	CorruptReq, CorruptRes bool // a byte of the request / response was altered in transit
 	Read2, Read3 int // response argument bytes handed to the caller (also when a read failed)
 }
@@ -343,6 +345,7 @@ func (w *World) Call(r *CallRec) {
 		call, err = s.From.Ch.GetSubChannel(s.Service).BeginCall(ctx, s.Method, s.Opts)
 	}
 	r.TOut = simrt.Elapsed()
+	r.TOutEv = w.tick()
 	if err != nil {
 		r.BeginErr = err
 		finish(err)
